@@ -66,6 +66,14 @@ def host_program(kind, cfg):
                  N('S', [('a', ['in', 'n0'])], mode='thread', attempts=3, delay=0.5),
                  N('n3', [('a', ['in', 'T']), ('b', ['in', 'S'])], mode='inline')]
         out = 'n3'
+    elif kind == 'cand':
+        # the target sits inside the sub-pipeline of a candidate next to a sibling that fails, and is shared with the
+        # next candidate: the policy of the target must be honoured in full although its first requester is lost
+        nodes = [N('n0', mode='coro'), N('T', [('a', ['in', 'n0'])], **t),
+                 N('S', [('a', ['in', 'n0'])], mode='gated'),
+                 N('C1', [('a', ['in', 'T']), ('b', ['in', 'S'])]), N('F', [('a', ['in', 'T'])], mode='thread'),
+                 N('n5', [('a', ['oneof', ['C1', 'F']])])]
+        out = 'n5'
     else:  # 'oneof': the target is a candidate with a fallback
         nodes = [N('n0', mode='coro'), N('T', [('a', ['in', 'n0'])], **t), N('F', [('a', ['in', 'n0'])], mode='thread'),
                  N('n3', [('a', ['oneof', ['T', 'F']])])]
@@ -90,7 +98,7 @@ class C12(EngineCheck):
     rule = ('(a) sampled: program with retry settings from the full product (attempts None/1..4, delay None/0/0.5/1/2.5, '
             'exceptions None/subsets, use_default) on nodes anywhere x per-invocation outcome sequences over {ok, ErrA, '
             'ErrB, ErrC, Fatal} x 4 schedules with other nodes and timers racing; (b) enumerated: for fixed host '
-            'pipelines (chain, racing sibling timer, one-of candidate) EVERY configuration x EVERY outcome sequence up '
+            'pipelines (chain, racing sibling timer, one-of candidate, dependency of a losing candidate shared with the next one) EVERY configuration x EVERY outcome sequence up '
             'to length attempts+1 (quick: length <=2 on the chain host); oracle = small-step reference of the '
             'documented policy: number of invocations, identical kwargs on re-invocation, virtual time between a failed '
             'attempt and the next start = delay (exact under blocking-only schedules, >= otherwise; tolerance 1e-6 s), '
@@ -148,7 +156,7 @@ class C12(EngineCheck):
 
     def extra(self, tier, seed, stats):
         shard, nshards = getattr(self, 'shard', (0, 1))
-        hosts = ('chain',) if tier == 'quick' else ('chain', 'race', 'oneof')
+        hosts = ('chain', 'cand') if tier == 'quick' else ('chain', 'race', 'oneof', 'cand')
         alphabet = ('ok', 'ErrA', 'ErrB', 'ErrC', 'Fatal')
         n = 0
         enumerated = 0
@@ -166,6 +174,8 @@ class C12(EngineCheck):
                             continue
                         prog = host_program(host, cfg)
                         var = {'x': 0, 'nodes': {'T': {'outcomes': list(seq), 'tail': 'ok'}}}
+                        if host == 'cand':
+                            var['nodes']['S'] = {'outcomes': [], 'tail': 'ErrC'}
                         case = {'program': prog, 'variant': var,
                                 'scheds': [{'kind': 'rank', 'ranks': {'T': 9, 'S': 1}, 'timer': 5}]}
                         verdict = self.examine(case)
@@ -332,7 +342,51 @@ def _events_one_manager(o, ev0, comp):
 
 @st.composite
 def recording_managers(draw):
-    return {'ems': [{'gated': draw(st.booleans())} for _ in range(draw(st.integers(1, 2)))], 'store': None}
+    store = {'gated': draw(st.booleans()), 'write_once': False} if draw(st.integers(0, 2)) == 0 else None
+    return {'ems': [{'gated': draw(st.booleans())} for _ in range(draw(st.integers(1, 2)))], 'store': store}
+
+
+@st.composite
+def delivery_window_templates(draw, tier):
+    """directed shape for the delivery rule: a join node C(A, B) under suspending collaborators; the event callbacks /
+    saves made on behalf of A are withheld until k other deliveries happened, for every k: B completes (and wakes C)
+    while the engine is still busy delivering A's completion"""
+    def N(nid, params=(), mode='gated', **kw):
+        d = {'id': nid, 'params': [list(p) for p in params], 'mode': mode}
+        d.update(kw)
+        return d
+    ext = st.sampled_from(['gated', 'gated', 'thread', 'coro', 'inline'])
+    nodes = [N('n0', mode='coro')]
+
+    def add(params, **kw):
+        nid = f'n{len(nodes)}'
+        nodes.append(N(nid, params, mode=draw(ext), **kw))
+        return nid
+
+    def chain(src, k):
+        for _ in range(k):
+            src = add([('k0', ['in', src])])
+        return src
+
+    a = chain('n0', draw(st.integers(1, 2)))
+    b = chain('n0', draw(st.integers(1, 3)))
+    params = [('k0', ['in', a]), ('k1', ['in', b])]
+    if draw(st.booleans()):
+        params.append(('k2', ['in', chain('n0', 1)]))
+    c = add(params)
+    out = chain(c, draw(st.integers(0, 1)))
+    prog = {'nodes': nodes, 'output': out}
+    var = {'x': 0, 'nodes': {}}
+    if draw(st.integers(0, 3)) == 0:
+        nodes[int(a[1:])].update(attempts=2)
+        var['nodes'][a] = {'outcomes': ['ErrA']}
+    ems = [{'gated': True}] + [{'gated': draw(st.booleans())} for _ in range(draw(st.integers(0, 1)))]
+    if draw(st.booleans()):
+        ems.reverse()
+    store = {'gated': True, 'write_once': False} if draw(st.integers(0, 2)) == 0 else None
+    scheds = [{'kind': 'delay', 'node': a, 'after': k, 'what': 'collab'} for k in range(1, 10)]
+    return {'program': prog, 'variant': var, 'scheds': scheds, 'collab': {'ems': ems, 'store': store},
+            'template': 'delivery-window'}
 
 
 class C14(EngineCheck):
@@ -351,11 +405,11 @@ class C14(EngineCheck):
 
         @st.composite
         def s(draw):
-            case = draw(G.cases(**kw))
+            case = draw(G.cases(collab_scheds=True, **kw))
             case['collab'] = draw(recording_managers())
             return _sanitize(case)
 
-        return s()
+        return st.one_of(*([s()] * 15), delivery_window_templates(tier))
 
     def oracle(self, case, refres, obs):
         v = []
@@ -436,7 +490,7 @@ class C19(EngineCheck):
 
         @st.composite
         def s(draw):
-            case = draw(G.cases(**kw))
+            case = draw(G.cases(collab_scheds=True, **kw))
             case['collab'] = {'ems': [], 'store': {'gated': draw(st.booleans()), 'write_once': True}}
             case = _sanitize(case)
             # known finding F16: nodes of a recurrent subgraph are saved once per iteration. The searched region
